@@ -14,10 +14,12 @@ Definition phi (p : pc) : Z :=
   | Idle => 0
   | PA_xchg _ => 32
   | PA_link _ true _ => 23
-  | PA_link _ false _ => 1
+  | PA_link _ false _ => 17
   | PA_probe _ => 22
   | PA_wake _ _ => 21
   | PA_rootpush => 13
+  | PA_oprobe _ => 16
+  | PA_owake _ => 15
   | PW_lock _ => 6
   | PW_tail _ => 5
   | PW_head _ => 4
@@ -140,7 +142,7 @@ Proof.
   pose proof g_wf0 as W. unfold wfr in W.
   pose proof (dbit_enc s r g_enc0 g_wf0) as Ds. pose proof (mqv_enc s r g_enc0 g_wf0) as Ms.
   pose proof (bonus_range s) as Bs.
-  unfold gstep in B. destruct (pcs s t) as [|q|i we q|q|q tg| |fl|o|o|o|o i m|o i m|o m|o|o] eqn:Hpc.
+  unfold gstep in B. destruct (pcs s t) as [|q|i we q|q|q tg| |q|q|fl|o|o|o|o i m|o i m|o m|o|o] eqn:Hpc.
   - discriminate.
   - (* PA_xchg *) injection B as <-.
     assert (K : token s <> Some (Some t)) by (apply (not_holder s t (T t)); rewrite Hpc; reflexivity).
@@ -207,6 +209,51 @@ Proof.
       unfold dbit. cbn [st set_pc set_rootq set_token]. lia. }
     rewrite (Phi_delta L _ _ t _ _ _ _ ND Hin D). rewrite Hpc. cbn [phi].
     assert (B' : bonus s' = 0) by reflexivity. lia.
+  - (* PA_oprobe *) injection B as <-.
+    assert (K : token s <> Some (Some t)) by (apply (not_holder s t (T t)); rewrite Hpc; reflexivity).
+    match goal with |- Phi L ?s1 + 1 <= _ => set (s' := s1) end.
+    assert (D : delta s s' t (match lst s with [] => Idle | _ => PA_owake q end) 0 0 0).
+    { subst s'. destruct (lst s) eqn:E; constructor; cbn [pcs lst rootq set_pc]; rewrite ?E; try lia; try reflexivity;
+        unfold dbit; cbn [st set_pc]; lia. }
+    rewrite (Phi_delta L _ _ t _ _ _ _ ND Hin D). rewrite Hpc.
+    rewrite (bonus_same s s'); [| subst s'; destruct (lst s); reflexivity | subst s'; destruct (lst s); reflexivity
+                                | intros w E; subst s'; destruct (lst s); cbn [pcs set_pc]; apply upd_other; congruence].
+    destruct (lst s); cbn [phi]; lia.
+  - (* PA_owake *)
+    destruct (T t) as (_ & _ & _ & T4). rewrite Hpc in T4. pose proof (T4 q eq_refl) as Q.
+    assert (K : token s <> Some (Some t)) by (apply (not_holder s t (T t)); rewrite Hpc; reflexivity).
+    rewrite g_enc0 in B. unfold ENQUEUED in B.
+    rewrite (wakeup_fields_plain r q 1 1 g_wf0 Q eq_refl) in B. cbv zeta in B.
+    pose proof (merged_wf r q g_wf0 Q) as Wm. unfold wfr in Wm.
+    destruct (merged_same r q) as (M1 & M2 & M3 & M4 & M5 & M6 & M7 & M8 & M9 & M10).
+    set (m := merged r q) in *.
+    set (e' := if can_enqueue r then 1 else f_enq m) in *.
+    assert (He' : 0 <= e' < 2) by (subst e'; destruct (can_enqueue r); lia).
+    set (r' := mk (f_owner m) (f_tr m) e' (f_mq m) (f_ov m) (f_role m) (f_em m) (f_d m) (f_pb m) (f_wq m) (f_ib m) (f_hi m)) in *.
+    assert (W' : wfr r') by (subst r'; apply wfr_mk; lia).
+    destruct (enc r' =? enc r).
+    + injection B as <-.
+      match goal with |- Phi L ?s1 + 1 <= _ => set (s' := s1) end.
+      assert (D : delta s s' t Idle 0 0 0).
+      { subst s'. constructor; cbn [pcs lst rootq set_pc]; try lia; try reflexivity. unfold dbit. cbn [st set_pc]. lia. }
+      rewrite (Phi_delta L _ _ t _ _ _ _ ND Hin D). rewrite Hpc. cbn [phi].
+      rewrite (bonus_same s s'); [lia | reflexivity | reflexivity | intros w E; subst s'; cbn [pcs set_pc]; apply upd_other; congruence].
+    + cbv iota beta in B.
+      destruct (negb (Z.land (Z.lxor (enc r) (enc r')) 2147483648 =? 0)); injection B as <-.
+      * match goal with |- Phi L ?s1 + 1 <= _ => set (s' := s1) end.
+        assert (D : delta s s' t PA_rootpush 0 0 0).
+        { subst s'. constructor; cbn [pcs lst rootq set_pc set_token set_st]; try lia; try reflexivity.
+          rewrite Ds. unfold dbit. cbn [st set_pc set_token set_st]. rewrite dec_enc by exact W'. subst r'. unfold mk; cbn [f_d]. lia. }
+        rewrite (Phi_delta L _ _ t _ _ _ _ ND Hin D). rewrite Hpc. cbn [phi].
+        assert (B' : bonus s' = 0).
+        { apply (bonus_not_lock s' t); [reflexivity|]. intros fl0. subst s'. cbn [pcs set_pc set_token set_st]. rewrite upd_same. discriminate. }
+        lia.
+      * match goal with |- Phi L ?s1 + 1 <= _ => set (s' := s1) end.
+        assert (D : delta s s' t Idle 0 0 0).
+        { subst s'. constructor; cbn [pcs lst rootq set_pc set_token set_st]; try lia; try reflexivity.
+          rewrite Ds. unfold dbit. cbn [st set_pc set_token set_st]. rewrite dec_enc by exact W'. subst r'. unfold mk; cbn [f_d]. lia. }
+        rewrite (Phi_delta L _ _ t _ _ _ _ ND Hin D). rewrite Hpc. cbn [phi].
+        pose proof (bonus_range s'). lia.
   - (* PW_lock *)
     pose proof (holder s t (T t)) as K. rewrite Hpc in K. specialize (K eq_refl).
     rewrite K, Hpc in g_lock0. cbn [locked_pc] in g_lock0. destruct g_lock0 as [V (O & Ib & Wq)].
@@ -354,6 +401,22 @@ Proof.
     lia.
 Qed.
 
+Lemma ostep_decreases s t s' :
+  Inv s -> In t L -> ostep s t = Some s' -> Phi L s' + 1 <= Phi L s.
+Proof.
+  intros [[r G] T] Hin B. unfold ostep in B. destruct (pcs s t) eqn:Hpc; try discriminate.
+  destruct was_empty; [discriminate|]. injection B as <-.
+  assert (K : token s <> Some (Some t)) by (apply (not_holder s t (T t)); rewrite Hpc; reflexivity).
+  match goal with |- Phi L ?s1 + 1 <= _ => set (s' := s1) end.
+  assert (D : delta s s' t (PA_oprobe qos) 0 0 0).
+  { subst s'. constructor; cbn [pcs lst rootq set_pc set_lst]; try lia; try reflexivity.
+    - rewrite length_link. lia.
+    - unfold dbit. cbn [st set_pc set_lst]. lia. }
+  rewrite (Phi_delta L _ _ t _ _ _ _ ND Hin D). rewrite Hpc.
+  rewrite (bonus_same s s'); [| reflexivity | reflexivity | intros w E; subst s'; cbn [pcs set_pc set_lst]; apply upd_other; congruence].
+  cbn [phi]. lia.
+Qed.
+
 End Step.
 
 (* ---------------------------------------------------------------- Inv3 is an invariant *)
@@ -363,7 +426,7 @@ Proof. intros [_ T] H. apply (holder s u (T u)). rewrite H. reflexivity. Qed.
 Lemma gstep_to_xor s t s' o : Inv s -> gstep s t = Some s' -> pcs s' t = PW_xor o -> dbit s' = 1.
 Proof.
   intros I B H. pose proof I as I0. destruct I0 as [[r G] T].
-  unfold gstep in B. destruct (pcs s t) as [|q|i we q|q|q tg| |fl|ow|ow|ow|ow i m|ow i m|ow m|ow|ow] eqn:Hpc.
+  unfold gstep in B. destruct (pcs s t) as [|q|i we q|q|q tg| |q|q|fl|ow|ow|ow|ow i m|ow i m|ow m|ow|ow] eqn:Hpc.
   all: try discriminate.
   all: try solve [exfalso;
     repeat match type of B with
@@ -386,17 +449,17 @@ Proof.
   - cbn [pcs set_pc set_st set_token] in H. rewrite upd_same in H. discriminate.
 Qed.
 
-Lemma gstep_word s t s' : Inv s -> gstep s t = Some s' -> st s' = st s \/ dbit s' = 1 \/ token_pc (pcs s t) = true.
+Lemma gstep_word s t s' : Inv s -> gstep s t = Some s' -> dbit s' = dbit s \/ dbit s' = 1 \/ token_pc (pcs s t) = true.
 Proof.
   intros I B. pose proof I as I0. destruct I0 as [[r G] T].
-  unfold gstep in B. destruct (pcs s t) as [|q|i we q|q|q tg| |fl|ow|ow|ow|ow i m|ow i m|ow m|ow|ow] eqn:Hpc.
+  pose proof (g_enc s r G) as g_enc0. pose proof (g_wf s r G) as g_wf0. pose proof g_wf0 as W. unfold wfr in W.
+  unfold gstep in B. destruct (pcs s t) as [|q|i we q|q|q tg| |q|q|fl|ow|ow|ow|ow i m|ow i m|ow m|ow|ow] eqn:Hpc.
   all: try discriminate.
   all: try (right; right; reflexivity).
   - left. injection B as <-. reflexivity.
   - left. injection B as <-. reflexivity.
   - left. injection B as <-. destruct (lst s); reflexivity.
   - right. left.
-    pose proof (g_enc s r G) as g_enc0. pose proof (g_wf s r G) as g_wf0. pose proof g_wf0 as W. unfold wfr in W.
     destruct (T t) as (_ & _ & _ & T4). rewrite Hpc in T4. pose proof (T4 q eq_refl) as Q.
     rewrite g_enc0 in B. unfold ENQUEUED in B.
     rewrite (wakeup_fields r q 3 1 g_wf0 Q eq_refl) in B. cbv zeta in B.
@@ -409,6 +472,22 @@ Proof.
     cbv iota beta in B.
     destruct (negb (Z.land (Z.lxor (enc r) (enc r')) 2147483648 =? 0)); injection B as <-;
       unfold dbit; cbn [st set_pc set_wakers set_token set_st]; rewrite dec_enc by exact W'; reflexivity.
+  - left. injection B as <-. destruct (lst s); reflexivity.
+  - left.
+    destruct (T t) as (_ & _ & _ & T4). rewrite Hpc in T4. pose proof (T4 q eq_refl) as Q.
+    rewrite g_enc0 in B. unfold ENQUEUED in B.
+    rewrite (wakeup_fields_plain r q 1 1 g_wf0 Q eq_refl) in B. cbv zeta in B.
+    pose proof (merged_wf r q g_wf0 Q) as Wm. unfold wfr in Wm.
+    destruct (merged_same r q) as (M1 & M2 & M3 & M4 & M5 & M6 & M7 & M8 & M9 & M10).
+    set (m := merged r q) in *.
+    set (e' := if can_enqueue r then 1 else f_enq m) in *.
+    assert (He' : 0 <= e' < 2) by (subst e'; destruct (can_enqueue r); lia).
+    set (r' := mk (f_owner m) (f_tr m) e' (f_mq m) (f_ov m) (f_role m) (f_em m) (f_d m) (f_pb m) (f_wq m) (f_ib m) (f_hi m)) in *.
+    assert (W' : wfr r') by (subst r'; apply wfr_mk; lia).
+    destruct (enc r' =? enc r); [injection B as <-; reflexivity|].
+    cbv iota beta in B.
+    destruct (negb (Z.land (Z.lxor (enc r) (enc r')) 2147483648 =? 0)); injection B as <-;
+      unfold dbit; cbn [st set_pc set_token set_st]; rewrite g_enc0, !dec_enc by assumption; subst r'; unfold mk; cbn [f_d]; exact M6.
 Qed.
 
 Lemma XD_step s t s' : Inv3 s -> valid_tid t -> gstep s t = Some s' -> XD s'.
@@ -417,7 +496,7 @@ Proof.
   destruct (Z.eq_dec u t) as [->|N]; [exact (gstep_to_xor s t s' o I B H)|].
   rewrite (gstep_frame s t s' u B N) in H.
   destruct (gstep_word s t s' I B) as [E|[E|E]].
-  - unfold dbit. rewrite E. exact (X u o H).
+  - rewrite E. exact (X u o H).
   - exact E.
   - exfalso. destruct I as [_ T]. pose proof (holder s t (T t) E). pose proof (holder s u (T u)) as Ku. rewrite H in Ku. specialize (Ku eq_refl). congruence.
 Qed.
@@ -436,10 +515,22 @@ Proof.
   - rewrite (begin_frame s t c s' u B N) in H. unfold dbit. rewrite E. exact (X u o H).
 Qed.
 
+Lemma XD_ostep s t s' : Inv3 s -> ostep s t = Some s' -> XD s'.
+Proof.
+  intros [I X] B u o H.
+  assert (E : st s' = st s /\ pcs s' t <> PW_xor o).
+  { unfold ostep in B. destruct (pcs s t); try discriminate. destruct was_empty; [discriminate|]. injection B as <-.
+    split; [reflexivity|]. cbn [pcs set_pc set_lst]. rewrite upd_same. discriminate. }
+  destruct E as [E Nx].
+  destruct (Z.eq_dec u t) as [->|N]; [contradiction|].
+  rewrite (ostep_frame s t s' u B N) in H. unfold dbit. rewrite E. exact (X u o H).
+Qed.
+
 Theorem step3_preserves s a s' : Inv3 s -> step s a s' -> Inv3 s'.
 Proof.
   intros I3 St. split; [exact (step_preserves s a s' (proj1 I3) St)|].
-  destruct a as [t c|t]; destruct St as [V B]; [exact (XD_begin s t c s' I3 B) | exact (XD_step s t s' I3 V B)].
+  destruct a as [t c|t|t]; destruct St as [V B];
+    [exact (XD_begin s t c s' I3 B) | exact (XD_step s t s' I3 V B) | exact (XD_ostep s t s' I3 B)].
 Qed.
 
 Theorem Inv3_reachable rb s : 0 <= rb < 2 -> reach rb s -> Inv3 s.
@@ -469,9 +560,10 @@ Fixpoint n_other (acts : list action) : Z :=
 Lemma covers_step L s a s' : covers L s -> In (act_tid a) L -> step s a s' -> covers L s'.
 Proof.
   intros C Hin St u Hu. assert (N : u <> act_tid a) by (intros ->; contradiction).
-  destruct a as [t c|t]; destruct St as [_ B]; cbn [act_tid] in *.
+  destruct a as [t c|t|t]; destruct St as [_ B]; cbn [act_tid] in *.
   - rewrite (begin_frame s t c s' u B N). apply C. exact Hu.
   - rewrite (gstep_frame s t s' u B N). apply C. exact Hu.
+  - rewrite (ostep_frame s t s' u B N). apply C. exact Hu.
 Qed.
 
 (* every action other than a new dispatch_async costs at least one unit of potential; a dispatch_async adds 32 *)
@@ -487,7 +579,7 @@ Proof.
     { destruct a; cbn [act_valid act_tid] in *; apply andb_true_iff in Va; destruct Va as [A B]; apply Z.ltb_lt in A; apply Z.ltb_lt in B; split; assumption. }
     assert (HinA : In (act_tid a) L) by (apply Hin; left; reflexivity).
     cbn [run] in E. cbn [n_other n_async].
-    destruct a as [t c|t]; cbn [act_tid] in *.
+    destruct a as [t c|t|t]; cbn [act_tid] in *.
     + destruct (begin s t c) as [s1|] eqn:B; [|discriminate].
       assert (St : step s (ABegin t c) s1) by (split; assumption).
       pose proof (step3_preserves s _ s1 I3 St) as I31.
@@ -500,6 +592,11 @@ Proof.
       pose proof (step3_preserves s _ s1 I3 St) as I31.
       destruct (IH s1 s' I31 V (fun a Ha => Hin a (or_intror Ha)) E) as [I3' Hb]. split; [exact I3'|].
       cbn [is_async_begin]. pose proof (step_decreases L ND s t s1 I3 Vt HinA B). lia.
+    + destruct (ostep s t) as [s1|] eqn:B; [|discriminate].
+      assert (St : step s (AStepO t) s1) by (split; assumption).
+      pose proof (step3_preserves s _ s1 I3 St) as I31.
+      destruct (IH s1 s' I31 V (fun a Ha => Hin a (or_intror Ha)) E) as [I3' Hb]. split; [exact I3'|].
+      cbn [is_async_begin]. pose proof (ostep_decreases L ND s t s1 (proj1 I3) HinA B). lia.
 Qed.
 
 (* in particular from any reachable state: the number of steps that are not new submissions is bounded *)
@@ -517,9 +614,10 @@ Lemma nonidle_valid rb s : reach rb s -> forall t, pcs s t <> Idle -> valid_tid 
 Proof.
   apply (invariant_lift (fun s0 => s0 = init_state rb) step (fun s0 => forall t, pcs s0 t <> Idle -> valid_tid t)).
   - intros s0 -> t H. unfold init_state in H; cbn in H. congruence.
-  - intros s1 a s2 IH St t H. destruct a as [u c|u]; destruct St as [V B]; destruct (Z.eq_dec t u) as [->|N]; try exact V.
+  - intros s1 a s2 IH St t H. destruct a as [u c|u|u]; destruct St as [V B]; destruct (Z.eq_dec t u) as [->|N]; try exact V.
     + rewrite (begin_frame s1 u c s2 t B N) in H. apply IH. exact H.
     + rewrite (gstep_frame s1 u s2 t B N) in H. apply IH. exact H.
+    + rewrite (ostep_frame s1 u s2 t B N) in H. apply IH. exact H.
 Qed.
 
 (* a state in which no thread can step and the lane does not sit in its target queue: everything submitted has run,
